@@ -26,7 +26,8 @@ MANIFEST = dict(
          "model of readselection/readselection_helper/_slice_read_selection/CovMonitor: subset, cap invariant, "
          "termination with proved fuel bounds, maximality of the repaired code (and a machine-checked witness that the "
          "code with defect F9 is not maximal), per-family total cap. The model is tied to the working tree by requiring "
-         "the implementation's result to be one of the model's enumerated outcomes on small inputs, and the property "
+         "the implementation's result to be one of the model's enumerated outcomes (proved to be exactly the outcomes of the "
+         "verified function over all tie choices: allOutcomes_sound / allOutcomes_complete) on small inputs, and the property "
          "predicates are evaluated independently on the implementation's output for all sizes and on `whatshap phase` traces",
     design_ref="DESIGN.md §5 C07, §6 F9",
     note="trusted: Lean kernel, axioms ⊆ {propext, Classical.choice, Quot.sound}; the hand-written model "
